@@ -117,7 +117,8 @@ def run(ctx, cases_override=None, only_formats=None):
         "evaluations": res["events"] - res["traces"],
         "distinct_nontrivial": len(inputs),
         "rule": "one evaluation = one public entry point called on one mutated input in a crash-isolated child; distinct_nontrivial = "
-                "distinct mutated inputs (seed file x plan item x field, deduplicated on the concrete value; the unmutated baselines are excluded)",
+                "distinct mutated inputs (seed file x plan item x field / field pair / chunk position / token site, deduplicated on the concrete value; "
+                "the unmutated baselines are excluded)",
         "samples": samples,
         "traces_validated_against_impl": res["traces"],
         "plan_items_generated_by_tlc": ncases,
